@@ -223,7 +223,41 @@ class SymExec:
             raise ShapeError(f'assignment target {ast.unparse(target)}')
 
     def run(self, stmts: list[ast.stmt]):
+        pushed = 0
+        try:
+            self._run(stmts)
+        finally:
+            pass
+
+    @staticmethod
+    def _terminates(body: list[ast.stmt]) -> bool:
+        return bool(body) and isinstance(body[-1], (ast.Return, ast.Raise, ast.Continue, ast.Break))
+
+    def _run(self, stmts: list[ast.stmt]):
+        pushed = 0
         for st in stmts:
+            self._run_one(st)
+            # an arm that leaves (return / raise / continue / break) guards everything after the `if`
+            if isinstance(st, ast.If):
+                bt, ot = self._terminates(st.body), self._terminates(st.orelse)
+                if bt != ot:
+                    g = self.ev_quiet(st.test)
+                    self.guards.append(('not', g) if bt else g)
+                    pushed += 1
+        if pushed:
+            del self.guards[len(self.guards) - pushed:]
+
+    def ev_quiet(self, e: ast.AST) -> Any:
+        """Evaluates a test again without logging its calls twice."""
+        n = len(self.events)
+        seq = self._seq
+        v = self.ev(e)
+        del self.events[n:]
+        self._seq = seq
+        return v
+
+    def _run_one(self, st: ast.stmt):
+        for st in [st]:
             if isinstance(st, ast.Expr) and isinstance(st.value, ast.Constant) or isinstance(st, (ast.Pass, ast.Assert, ast.Import, ast.ImportFrom, ast.Global, ast.Nonlocal)):
                 continue
             if isinstance(st, ast.Expr):
